@@ -150,7 +150,8 @@ def fault_part(ctx):
             if not ctx.mine(idx):
                 continue
             cfg = {'extractor': rng.choice([e for e in fr.EXTRACTORS if e != 'ok_calls_output']), 'fail_save': rng.random() < 0.15, 'rate': rng.choice([None, None, 0, 0.5, 1]),
-                   'copy': rng.choice([None, True, False]), 'kind': rng.choice(['memory', 'memory', 'async', 'file', 's3'])}
+                   'copy': rng.choice([None, True, False]), 'kind': rng.choice(['memory', 'memory', 'async', 'file', 's3']),
+                   'caller_context': fr.CALLER_CONTEXTS[idx % 9] if idx % 9 < 4 else 'plain'}     # also called from except / finally blocks
             if idx % 5 == 0 and cfg['kind'] != 'async':
                 # the recorder has a past (earlier operations, replays, a failed replay of an imported recording ...)
                 from playback.tape_recorder import TapeRecorder
